@@ -4,6 +4,7 @@ import (
 	"bytes"
 	"context"
 	"fmt"
+	"sort"
 	"strings"
 
 	"github.com/regclient/regclient/internal/verif/core"
@@ -11,6 +12,7 @@ import (
 	"github.com/regclient/regclient/internal/verif/oracle"
 	"github.com/regclient/regclient/internal/verif/regmodel"
 	"github.com/regclient/regclient/internal/verif/simnet"
+	"github.com/regclient/regclient/internal/verif/simos"
 	"github.com/regclient/regclient/internal/verif/simrt"
 )
 
@@ -63,6 +65,7 @@ func planC04(base *core.Result, tier string, budget int, rng func(int) int) []co
 
 func runC04(e *core.Env) {
 	c := genCopyCase(e, copyGenOpts{})
+	defer c.done()
 	n := c.w.Net
 	n.FaultAt, n.FaultKind = e.Param("fault_at"), e.Param("fault_kind")
 	n.FaultAt2, n.FaultKind2 = e.Param("fault_at2"), e.Param("fault_kind2")
@@ -73,19 +76,15 @@ func runC04(e *core.Env) {
 	n.Cancel = cancel
 	positional := n.FaultAt > 0 || n.FreezeAt > 0 || n.CancelAt > 0
 	rootSubject := regmodel.Subject(c.gr.Root.Raw)
+	tgtAPI := c.tgt != nil && c.tgt.K.Referrers
 
-	tgtS := oracle.RegStore{Reg: c.tgt, Repo: c.tgtRepo}
-	// online invariant: evaluated by the target model at every manifest PUT it accepts
+	tgtS := c.tgtEP.store()
+	// online invariant: evaluated at every manifest the target accepts (registry: at the PUT, by the
+	// model; layout: at the rename of the manifest file into place, through the disk seam)
 	written := map[string]bool{}
-	c.tgt.OnManifestPut = func(seq int, repo, ref, dig string, raw []byte) {
-		if repo != c.tgtRepo {
-			return
-		}
+	c.onManifest = func(seq int, dig string, raw []byte) {
 		written[dig] = true
 		for _, r := range regmodel.ContentRefs(raw) {
-			if r.External && !c.includeExt {
-				continue
-			}
 			if r.External {
 				continue // external layers are optional content even when asked for (see C03)
 			}
@@ -94,30 +93,38 @@ func runC04(e *core.Env) {
 				_, _, ok = tgtS.Manifest(r.Digest)
 			} else {
 				_, ok = tgtS.Blob(r.Digest)
-				if !ok && r.Field == "manifests" {
-					_, _, ok = tgtS.Manifest(r.Digest)
-				}
 			}
 			if !ok {
 				what := "blob"
 				if r.Manifest {
 					what = "manifest"
 				}
-				e.Violation("order", "parent-before-"+what, "request #%d wrote manifest %s (ref %s) to %s before its %s %s (%s) was there",
-					seq, short(dig), short(ref), tgtS.Name(), what, short(r.Digest), r.Field)
+				e.Violation("order", "parent-before-"+what, "write #%d put manifest %s into %s before its %s %s (%s) was there",
+					seq, short(dig), tgtS.Name(), what, short(r.Digest), r.Field)
 			}
 		}
+	}
+	c.watch()
+	if c.tgtEP.isLayout() && n.FreezeAt > 0 {
+		// process death takes the disk with it: it is frozen when the network is
+		n.OnFreeze = func() { c.disk.FreezeNow() }
 	}
 	rc := c.w.Client()
 	s, t := c.refs()
 	e.SetCase(c.key()+"|"+core.Params(e.Tape.Params).String(), true, map[string]any{"copy": c.describe(), "plan": core.Params(e.Tape.Params).String()})
-	simrt.Event("ImageCopy %s -> %s opts=%v pre=%s plan=%s", s.CommonName(), t.CommonName(), c.optNames, c.preState, core.Params(e.Tape.Params).String())
-	jStart := len(c.tgt.Journal)
+	simrt.Event("ImageCopy %s opts=%v pre=%s plan=%s", c.pairing, c.optNames, c.preState, core.Params(e.Tape.Params).String())
 	err := rc.ImageCopy(ctx, s, t, c.opts...)
 	simrt.Event("ImageCopy returned %v", err)
 	reqs := len(n.Log)
 	// tasks still running after an error return are allowed to finish so that their late writes are seen
 	drainTasks(e, 30)
+	if c.disk != nil {
+		c.disk.OnMutation = nil
+		if c.disk.Frozen {
+			// restart: the audit reads the surviving directory
+			simos.Use(nil)
+		}
+	}
 	e.Info("requests", reqs)
 	for k, v := range n.Fired {
 		for i := 0; i < v; i++ {
@@ -127,11 +134,11 @@ func runC04(e *core.Env) {
 	if n.FreezeAt > 0 && n.Frozen {
 		e.Fault("crash")
 	}
-	journal := c.tgt.Journal[jStart:]
+	journal := c.writes
 	// tag-last: nothing reaches the target after the write of the requested tag
 	tagIdx := -1
 	for i, w := range journal {
-		if w.Kind == "tag" && w.Repo == c.tgtRepo && w.Tag == c.tgtTag {
+		if w.Kind == "tag" && w.Tag == c.tgtTag {
 			tagIdx = i
 		}
 	}
@@ -143,11 +150,11 @@ func runC04(e *core.Env) {
 			}
 			// exemption fixed in DESIGN §4 C04: the spec-mandated fallback-tag update for the
 			// top-level manifest's own subject on a target without the referrers API
-			if rootSubject != "" && !c.tgt.K.Referrers && isFallbackWrite(journal, w, rootSubject) {
+			if rootSubject != "" && !tgtAPI && isFallbackWrite(journal, w, rootSubject) {
 				e.Probe("tag-then-fallback-tag(exempt)")
 				continue
 			}
-			e.Violation("tag-last", "write-after-tag:"+w.Kind, "after the requested tag %s was written (request #%d) the copy still wrote %s %s %s (request #%d)",
+			e.Violation("tag-last", "write-after-tag:"+w.Kind, "after the requested tag %s was written (write #%d) the copy still wrote %s %s %s (write #%d)",
 				c.tgtTag, tagSeq, w.Kind, short(w.Digest), w.Tag, w.Seq)
 		}
 	}
@@ -176,7 +183,12 @@ func runC04(e *core.Env) {
 		}
 	}
 	// whatever was written remains a set of complete images: every manifest written during the copy has its content
+	var wl []string
 	for d := range written {
+		wl = append(wl, d)
+	}
+	sort.Strings(wl)
+	for _, d := range wl {
 		raw, _, ok := tgtS.Manifest(d)
 		if !ok {
 			continue
@@ -207,7 +219,7 @@ func short(d string) string {
 	return d
 }
 
-func isFallbackWrite(journal []regmodel.Write, w regmodel.Write, subject string) bool {
+func isFallbackWrite(journal []wev, w wev, subject string) bool {
 	ft := regmodel.FallbackTag(subject)
 	if w.Kind == "tag" && w.Tag == ft {
 		return true
